@@ -56,3 +56,116 @@ def install_identity(eng):
         vec_write(eng, st, ret, p, m)
     eng.models[ZC] = m_compress
     eng.models[ZU] = m_uncompress
+
+# ---------------------------------------------------------------------------------------------------------------
+# contract stub of libz for checking the REAL wrappers zlib_uncompress / zlib_compress (encode_decode_utils.cpp).
+# inflate()/deflate() behave arbitrarily within what zlib.h documents; the stub checks that the window
+# [next_in, next_in+avail_in) it is handed lies inside the caller's buffer and is the next unread part of it, and
+# detects a wrapper loop that can repeat the same state forever.
+Z_OK, Z_STREAM_END, Z_NEED_DICT, Z_ERRNO, Z_STREAM_ERROR, Z_DATA_ERROR, Z_MEM_ERROR, Z_BUF_ERROR = 0, 1, 2, -1, -2, -3, -4, -5
+Z_FINISH = 4
+OFF = {'next_in': 0, 'avail_in': 8, 'total_in': 16, 'next_out': 24, 'avail_out': 32, 'total_out': 40, 'state': 56}
+
+def install_contract(eng):
+    M = eng.models
+    def zs(st): return st.env.setdefault('z', {'calls': 0, 'consumed': 0, 'produced': [], 'fulls': 0, 'last': None, 'pending': False, 'ended': False, 'src': None})
+    def rd32(st, p, k): return eng.concretize(st, eng.load(st, P(p.obj, p.off + OFF[k]), 4), 'z_stream.' + k)
+    def window(st, strm, what):
+        z = zs(st)
+        nin = eng.load(st, P(strm.obj, strm.off + OFF['next_in']), 8); ain = rd32(st, strm, 'avail_in')
+        nout = eng.load(st, P(strm.obj, strm.off + OFF['next_out']), 8); aout = rd32(st, strm, 'avail_out')
+        if isinstance(nin, Undef) or isinstance(nout, Undef): raise E.Bug('undef', what + ' called with uninitialised next_in/next_out', eng._m(st))
+        if ain:
+            if not isinstance(nin, P) or nin.obj == 0: raise E.Bug('null', what + ': avail_in > 0 with a null next_in', eng._m(st))
+            o = eng.obj_of(st, nin, what + ' input window')
+            eng.bounds(st, o, nin.off, ain, what + ' input window [next_in, next_in+avail_in) (the callee may read all of it)')
+            if z['src'] is None: z['src'] = (nin.obj, nin.off)
+            exp = z['src'][1] + z['consumed']
+            if nin.obj != z['src'][0] or nin.off != exp:
+                raise E.Bug('assert', '%s is fed bytes at offset %s of the source buffer, expected the next unread byte at offset %s (bytes skipped or fed twice)' % (what, nin.off, exp), eng._m(st))
+        if aout:
+            o = eng.obj_of(st, nout, what + ' output window', write=True)
+            eng.bounds(st, o, nout.off, aout, what + ' output window')
+        return z, nin, ain, nout, aout
+    def advance(st, strm, z, nin, ain, nout, aout, c, p, tag):
+        if c:
+            eng.store(st, P(strm.obj, strm.off + OFF['next_in']), 8, P(nin.obj, nin.off + c))
+        eng.store(st, P(strm.obj, strm.off + OFF['avail_in']), 4, ain - c)
+        if p:
+            o = st.obj_w(nout.obj); off = E.to_signed(nout.off, 64); eng.kill_overlaps(o, off, p)
+            for i in range(p):
+                v = st.new_input('%s[%d]' % (tag, len(z['produced'])), 8, 'env'); o.cells[off + i] = (1, v); z['produced'].append(v)
+            eng.store(st, P(strm.obj, strm.off + OFF['next_out']), 8, P(nout.obj, nout.off + p))
+        eng.store(st, P(strm.obj, strm.off + OFF['avail_out']), 4, aout - p)
+        z['consumed'] += c; z['calls'] += 1
+        z['pending'] = bool(p and p == aout)
+        if p and p == aout: z['fulls'] += 1
+
+    def m_inflate_init(st, a):
+        r = eng.choose(st, 'inflateInit', 2)
+        zs(st)
+        return Z_OK if r == 0 else E.mask(Z_MEM_ERROR, 32)
+    def m_inflate(st, a):
+        strm = a[0]
+        z, nin, ain, nout, aout = window(st, strm, 'inflate')
+        if z['calls'] >= 8: raise E.Inconclusive('cap', 'more than 8 inflate calls (stub bound)')
+        opts = []
+        if ain > 0:
+            opts = [('ok', ain, 0), ('ok', ain, min(3, aout)), ('end', ain, min(2, aout)), ('end', ain - min(4, ain), 0), ('data', 0, 0), ('mem', 0, 0), ('dict', 0, 0)]
+            if z['fulls'] < 2: opts.append(('ok', ain, aout))
+        else:
+            opts = [('buf', 0, 0)]
+            if z['pending']: opts += [('ok', 0, min(3, aout)), ('end', 0, min(2, aout))]
+        k = eng.choose(st, 'inflate', len(opts))
+        kind, c, p = opts[k]
+        if kind == 'ok' and c + p == 0: kind = 'buf'
+        if kind == 'buf' and z['last'] == ('buf', ain, aout):
+            raise E.Bug('nonterm', 'the wrapper calls inflate again in exactly the state in which it just returned Z_BUF_ERROR (no input left, nothing produced): '
+                        'it loops forever on a truncated stream', eng._m(st))
+        st.log.append(('inflate', kind, ain, c, p))
+        advance(st, strm, z, nin, ain, nout, aout, c, p, 'inflated')
+        z['last'] = (kind, ain - c, aout - p) if kind == 'buf' else None
+        if kind == 'buf': z['last'] = ('buf', ain, aout)
+        return E.mask({'ok': Z_OK, 'end': Z_STREAM_END, 'data': Z_DATA_ERROR, 'mem': Z_MEM_ERROR, 'dict': Z_NEED_DICT, 'buf': Z_BUF_ERROR}[kind], 32)
+    def m_inflate_end(st, a):
+        zs(st)['ended'] = True; return Z_OK
+    def m_deflate_init(st, a):
+        r = eng.choose(st, 'deflateInit', 2)
+        zs(st)
+        return Z_OK if r == 0 else E.mask(Z_MEM_ERROR, 32)
+    def m_deflate(st, a):
+        strm = a[0]; flush = eng.concretize(st, a[1], 'deflate flush')
+        z, nin, ain, nout, aout = window(st, strm, 'deflate')
+        if z['calls'] >= 8: raise E.Inconclusive('cap', 'more than 8 deflate calls (stub bound)')
+        opts = [(ain, 0), (ain, min(5, aout))]
+        if z['fulls'] < 2: opts.append((ain, aout))
+        if z['pending']: opts = [(0, min(5, aout)), (0, 0)] + ([(0, aout)] if z['fulls'] < 2 else [])
+        k = eng.choose(st, 'deflate', len(opts))
+        c, p = opts[k]
+        st.log.append(('deflate', flush, ain, c, p))
+        advance(st, strm, z, nin, ain, nout, aout, c, p, 'deflated')
+        z['flush'] = flush
+        return Z_STREAM_END if flush == Z_FINISH and not z['pending'] else Z_OK
+    def m_deflate_end(st, a):
+        zs(st)['ended'] = True; return Z_OK
+    M['inflateInit_'] = m_inflate_init; M['inflate'] = m_inflate; M['inflateEnd'] = m_inflate_end
+    M['deflateInit_'] = m_deflate_init; M['deflate'] = m_deflate; M['deflateEnd'] = m_deflate_end
+
+    def v_check(st, a):
+        """verif_zlib_check(out_ptr, out_len, src_len, skip): the wrapper's result must be exactly the bytes the callee produced, in
+        order (after `skip` header bytes), and every source byte from the start of the fed region must have been offered"""
+        z = zs(st)
+        outp, n, srclen, skip = a[0], eng.concretize(st, a[1], 'len'), eng.concretize(st, a[2], 'srclen'), eng.concretize(st, a[3], 'skip')
+        prod = z['produced']
+        if n - skip != len(prod):
+            raise E.Bug('assert', 'wrapper returned %d payload bytes but the callee produced %d' % (n - skip, len(prod)), eng._m(st))
+        diff = []
+        for i, v in enumerate(prod):
+            b = eng.load(st, P(outp.obj, outp.off + skip + i), 1)
+            if b is v or (E.is_sym(b) and b.get_id() == v.get_id()): continue
+            diff.append(E.bv(b, 8) != v)
+        if diff: eng.check_bug(st, z3.Or(*diff), 'assert', 'wrapper output differs from the bytes the callee produced')
+        st.log.append(('reach', 'zlib-output-checked'))
+        if not z['ended']: raise E.Bug('assert', 'inflateEnd/deflateEnd not called on a successful return (leak)', eng._m(st))
+        return z['consumed']
+    M['verif_zlib_check'] = v_check
